@@ -12,7 +12,8 @@ text = """## 11. Seeded-defect campaign: which checks catch which changes
 Fresh sub-agents were given ONLY the text of one property and their own scratch git worktree of
 `/repo` (nothing from `/verif`) and asked for a small realistic change that breaks the property,
 still compiles and passes the existing suite, and needs something specific to manifest, plus a
-demonstration (a new test failing with the change and passing without it).  Each change was
+demonstration (a new test failing with the change and passing without it); the prompt they got is
+`seeded/PROMPT.md`.  Each change was
 confirmed by the coordinator (`tools/seed_confirm.sh`: demo passes on the clean tree, `cargo check
 --workspace --tests` and the full `cargo test --lib` of the touched crates pass with the change,
 demo fails with it) and is kept under `seeded/<id>/` (`patch.diff`, `demo.diff`, `meta.json`).
@@ -65,7 +66,10 @@ Strengthening done because of this campaign (each was a miss or a weak verdict f
   call site of the node-funding helper and the theorem module proves by `decide` that an
   *unconditional* `lock_non_cardinal_outputs` precedes each of them.
 * Totals: 59 seeded changes (37 + 10 + 12), every one reported as a VIOLATION by the check of its own
-  property in the quick tier as committed now; 8 needed a strengthening first (C05, C15, C16, C20
+  property in the quick tier as committed now (all 59 were re-run after the last generator change,
+  because any change to a generator shifts the random sequence of every stream that uses it: the
+  round-1 C16 seed had silently stopped being caught at seed 1 and was recovered by aiming the
+  generator at every length-prefixed place of the properties schema); 8 needed a strengthening first (C05, C15, C16, C20
   verdict, C24, C21b, C11b, C15b) and 2 a better verdict (C24b, C03b).
 * Independent of any seed: extractors read the source with comments removed (a comment added inside a
   parsed function no longer breaks an obligation: tested by inserting 3 800 comment lines and 1 400 blank
